@@ -131,4 +131,17 @@ TEXT = {
         design_ref="DESIGN.md sections 3 (C15) and 4",
         level_note=NOTE_COMMON + " UBSan's null / pointer-overflow checks are off in this one driver: Eigen forms &dst(0,0) of empty matrices internally (0-column products).",
         technique="runtime oracle (extended-precision residual, finiteness, orthonormality, ordering) over generated inputs + fixed regression corpus, ASan+UBSan build"),
+    "C16": dict(
+        level_text="Exploration: ~2500 (quick) PartialSVDSolver scenarios (tall / wide / square, four storage layouts, five input kinds incl. exactly rank-deficient) each with two successive compute() calls and a "
+                   "fresh-solver comparison; finiteness / sign / order / accessor shapes always, accuracy and factor identities against a dense reference SVD for singular values above 1e-4 ||A||; "
+                   "matrices with ||A||^2 below the solver's absolute convergence floor form a fixed corpus whose failing members are listed.",
+        design_ref="DESIGN.md sections 3 (C16) and 4",
+        level_note=NOTE_COMMON,
+        technique="runtime oracle (dense reference SVD, extended-precision factor identities, bitwise fresh-vs-reused comparison) over generated inputs + fixed regression corpus, ASan+UBSan build"),
+    "C17": dict(
+        level_text="Exploration: 480 (quick) / 10000 (thorough) LOBPCG runs on pencils with prescribed well-separated smallest eigenvalues, with/without B and preconditioner, block sizes incl. the rejected "
+                   "ones; on reported success every clause of the statement is judged against a dense generalized reference, and residuals() is checked against the private iterate read through the guarded friend.",
+        design_ref="DESIGN.md section 3, C17",
+        level_note=NOTE_COMMON + " UBSan's null / pointer-overflow checks are off in this driver (Eigen-internal empty sparse products).",
+        technique="runtime oracle (dense generalized reference, residual identity through guarded friend access) over generated inputs, ASan+UBSan build"),
 }
